@@ -4,6 +4,8 @@ package main
 
 import (
 	"fmt"
+	"sync"
+	"sync/atomic"
 	"sort"
 	"strconv"
 	"strings"
@@ -21,6 +23,10 @@ import (
 //   x:<labels>:<expMs>         ExpireDatum
 //   r:<labels>                 RemoveDatum
 // then Store.Gc() on a store that also holds an untouched bystander metric.
+// case:  gcrace <n> <rounds>
+//   a metric of n label sets, one of them expired; Store.Gc() runs while a line processor deletes
+//   that label set and creates it anew, over and over.  A datum the processor created is stamped
+//   now and has no expiry: no GC may take it, under any schedule.  (PRED only.)
 // The generator keeps every deadline at least 2 s away from the GC instant (guard band), so the
 // few microseconds between building the store and Gc()'s own time.Now() cannot matter.
 
@@ -32,7 +38,99 @@ type c10Entry struct {
 	seq    int
 }
 
+
+// c10Race: see the header.  Returns the number of rounds in which a datum the line processor had
+// just created (no expiry, stamped now) was gone before the processor itself removed it.
+func c10Race(n, rounds int) (int, int, string) {
+	lost, overlapped := 0, 0
+	first := ""
+	for round := 0; round < rounds && lost == 0; round++ {
+		s := metrics.NewStore()
+		m := metrics.NewMetric("m", "p", metrics.Gauge, metrics.Int, "k")
+		old := time.Now().Add(-time.Hour)
+		// the victim sits at the front or at the back of the scan, in turn
+		names := make([]string, 0, n+1)
+		for j := 0; j < n; j++ {
+			names = append(names, "v"+strconv.Itoa(j))
+		}
+		if round%2 == 0 {
+			names = append([]string{"victim"}, names...)
+		} else {
+			names = append(names, "victim")
+		}
+		for _, nm := range names {
+			d, _ := m.GetDatum(nm)
+			datum.SetInt(d, 1, old)
+		}
+		_ = m.ExpireDatum(time.Second, "victim")
+		_ = s.Add(m)
+		var gcRunning, stop atomic.Bool
+		var wg sync.WaitGroup
+		wg.Add(1)
+		sawGc := false
+		go func() {
+			defer wg.Done()
+			mine := false // the processor created the present datum
+			for i := 0; !stop.Load(); i++ {
+				if mine {
+					m.RLock()
+					present := m.FindLabelValueOrNil([]string{"victim"}) != nil
+					m.RUnlock()
+					if !present {
+						lost++
+						if first == "" {
+							first = fmt.Sprintf("round %d (n=%d), iteration %d: the label set the line processor had just created (no expiry, stamped now) was collected", round, n, i)
+						}
+						return
+					}
+				}
+				if gcRunning.Load() {
+					sawGc = true
+				}
+				_ = m.RemoveDatum("victim")
+				d, err := m.GetDatum("victim")
+				if err != nil {
+					return
+				}
+				datum.SetInt(d, int64(i), time.Now())
+				mine = true
+			}
+		}()
+		time.Sleep(time.Duration(50+round%7*30) * time.Microsecond)
+		gcRunning.Store(true)
+		_ = s.Gc()
+		gcRunning.Store(false)
+		time.Sleep(100 * time.Microsecond)
+		stop.Store(true)
+		wg.Wait()
+		if sawGc {
+			overlapped++
+		}
+	}
+	return lost, overlapped, first
+}
+
 func c10Run(r *runCtx, id string, f []string) {
+	if f[0] == "gcrace" {
+		n, _ := strconv.Atoi(f[1])
+		rounds, _ := strconv.Atoi(f[2])
+		lost, overlapped, first := c10Race(n, rounds)
+		r.stat("gcrace")
+		if overlapped > 0 {
+			r.stat("gcrace_overlapped")
+		}
+		r.obs(id, "-")
+		if lost > 0 {
+			r.replay(id, f...)
+			r.fail(id, "gc-takes-unexpired", "%s", first)
+		} else {
+			r.ok(id)
+		}
+		if overlapped == 0 {
+			r.trivial(id)
+		}
+		return
+	}
 	limit, _ := strconv.Atoi(f[1])
 	var ops []string
 	if len(f) > 2 && f[2] != "." {
@@ -214,6 +312,13 @@ func c10Run(r *runCtx, id string, f []string) {
 func init() {
 	props["C10"] = &propImpl{
 		gen: func(g *genCtx) {
+			for _, n := range []int{0, 50, 2000, 20000} {
+				rounds := 20
+				if g.thorough() {
+					rounds = 200
+				}
+				g.emit("gcrace", strconv.Itoa(n), strconv.Itoa(rounds))
+			}
 			tuples := []string{hxs([]string{"a"}), hxs([]string{"b"}), hxs([]string{"-"}), hxs([]string{"c\\"}), hxs([]string{"d"}), hxs([]string{""})}
 			offs := []int64{-3600000, -60000, -10000, -5000, -2000, 2000, 60000}
 			exps := []int64{0, -1000, 1000, 7000, 30000, 7200000}
